@@ -211,9 +211,9 @@ class Mod(Harness):
 
     def shapes(self, tier, prop=None):
         S = []
-        ns = [(1, 2), (1, 3), (2, 3), (2, 5), (2, 6)]
+        ns = [(1, 2), (1, 3), (2, 3), (2, 4), (2, 5), (2, 6)]
         if tier == "thorough":
-            ns += [(2, 4), (3, 4), (3, 7), (3, 10)]
+            ns += [(3, 4), (3, 5), (3, 7), (3, 10)]
         seeds = (1, 2) if tier == "quick" else (1, 2, 3, 4, 5, 6)
         L = 6 if tier == "quick" else 14
         if prop in (None, "C12", "C13"):
